@@ -2,7 +2,7 @@
 // clock advanced between them; every diagnostic is stamped with the virtual time at which it was logged.
 // stdin:  "<max_runtime_ms>;<tick_us>;<max_loop>\t<cmd>@<cmd>@..."   cmd: L<hex sqf text> | S | T<n> | A | J<us>
 // stdout: obs|obs|...  \t  for every S/T command the virtual time (us) of each diag_log marker: t,t,..|t,..
-//   obs:  L | LPARSEFAIL | J | S<result>:<state>:<events> | T<step>+<step>..:<events> | A<result>:<state>
+//   obs:  L | LPARSEFAIL | J | S<result>:<state>:<clock before>-<clock after>:<events> | T<step>+<step>..:<events> | A<result>:<state>
 //   events as in h_vm.cpp (level:code of everything at info level or worse, M<text> after diag_log / dropped value)
 #define VH_VIRTUAL_CLOCK
 #include "sqfrt.hpp"
@@ -125,9 +125,11 @@ int main()
                 else if (c[0] == 'J') { vh::g_clock_ns += std::stoll(c.substr(1)) * 1000LL; obs += "J"; }
                 else if (c[0] == 'S')
                 {
+                    long long t0 = vh::g_clock_ns / 1000;
                     int r = (int)vm.rt->execute(sqf::runtime::runtime::action::start);
+                    long long t1 = vh::g_clock_ns / 1000;
                     std::string t;
-                    obs += "S" + std::to_string(r) + ":" + std::to_string(vm.state()) + ":" + events(vm, t);
+                    obs += "S" + std::to_string(r) + ":" + std::to_string(vm.state()) + ":" + std::to_string(t0) + "-" + std::to_string(t1) + ":" + events(vm, t);
                     if (!firstt) times += "|";
                     firstt = false;
                     times += t;
